@@ -497,3 +497,35 @@ Proof.
     + lia.
     + assumption.
 Qed.
+
+(* ---- open-ended range: an empty `last` is the clock reading *)
+Lemma last_of_empty loc n2 : last_of loc n2 [] = Ok n2.
+Proof. reflexivity. Qed.
+
+Lemma range_open_end loc n1 n2 a first : first_of loc n1 a = Ok first ->
+  (parse_time_range loc n1 n2 a [] = Ok (first, n2) <-> first <= n2)
+  /\ (n2 < first -> parse_time_range loc n1 n2 a [] = Err).
+Proof.
+  intros Ha. split.
+  - rewrite range_ok. rewrite last_of_empty. split; [intros (_ & _ & H); exact H | intros H; repeat split; assumption].
+  - intros H. eapply range_rejected; [exact Ha | apply last_of_empty | exact H].
+Qed.
+
+Lemma collect_interval loc n1 n2 a b f l d :
+  parse_time_range_collect loc n1 n2 a b = (f, l, d) -> (In 3 d <-> l < f).
+Proof.
+  unfold parse_time_range_collect.
+  destruct (first_of loc n1 a) as [v1| |]; destruct (last_of loc n2 b) as [v2| |];
+    match goal with |- context [if ?c then _ else _] => destruct c eqn:E end;
+    cbn [app]; intros H; inversion H; subst; clear H; cbn [In];
+    split; intros K; try lia; intuition (try lia; try discriminate).
+Qed.
+
+Lemma collect_agrees loc n1 n2 a b f l :
+  parse_time_range_collect loc n1 n2 a b = (f, l, []) <-> parse_time_range loc n1 n2 a b = Ok (f, l).
+Proof.
+  unfold parse_time_range_collect, parse_time_range.
+  destruct (first_of loc n1 a) as [v1| |]; destruct (last_of loc n2 b) as [v2| |]; cbn [app res_bind];
+    try (split; intros H; discriminate);
+    destruct (v2 <? v1) eqn:E; cbn [app]; split; intros H; inversion H; subst; try reflexivity; try discriminate.
+Qed.
